@@ -1,13 +1,16 @@
 """C07 — every request sample reaches the metrics store exactly once (DESIGN.md section 4, C07).
 
 Two local engines (candidates for sa/): `_Expand` analyses a routine together with the helper methods it calls (structural copy with the helper bodies in place),
-`_Interp` evaluates extracted routines on representative values and records the calls of unmodelled callees as effects (statement-level extension of sa/minieval)."""
+`_Interp` evaluates extracted routines on representative values and records the calls of unmodelled callees as effects (statement-level extension of sa/minieval).
+`_Interp` also follows generated constructors (dataclasses, typing.NamedTuple), contextlib.suppress, functools.partial, itertools.islice / chain, lets a rule's model of an
+unmodelled object raise (`_QueueModel`: the sampler's queue with Empty / Full), remembers the loops it had to skip (`_require_loops_modelled`: a verdict that depends on
+such a loop is 'not recognised') and the exception a routine ended with (`raised`)."""
 from __future__ import annotations
 
 import ast
 
 from sa import source
-from sa.cfg import cfg_of, guards
+from sa.cfg import cfg_of
 from sa.source import AnchorMissing, arg_of, dotted, is_self_attr, last_attr, local_defs, params_of, short, u, walk_body
 
 _D = "esrally/driver/driver.py"
@@ -368,10 +371,18 @@ class _PyM:
         self.recv, self.name = recv, name
 
 
+class _Partial:
+    """functools.partial(f, *args, **kwargs), evaluated: calling it calls f"""
+
+    def __init__(self, f, args, kwargs):
+        self.f, self.args, self.kwargs = f, list(args), dict(kwargs)
+
+
 class _Eff:
     def __init__(self, path, args, kwargs, ctx, node, state):
         self.path, self.args, self.kwargs, self.ctx, self.node, self.state = path, args, kwargs, ctx, node, state
         self.name = path.rsplit(".", 1)[-1] if path else ""
+        self.callee = None  # the term that was called (None: a named object)
 
 
 _PY_METHODS = {
@@ -389,7 +400,7 @@ _CMPS = {ast.Eq: lambda a, b: a == b, ast.NotEq: lambda a, b: a != b, ast.Lt: la
 
 
 def _opaque(v):
-    return isinstance(v, (_T, _O, _Fn, _Cls, _PyM))
+    return isinstance(v, (_T, _O, _Fn, _Cls, _PyM, _Partial))
 
 
 class _Interp:
@@ -415,7 +426,7 @@ class _Interp:
                 self.memo[k] = self.oracle[self.taken]
                 self.taken += 1
             return self.memo[k]
-        if isinstance(v, (_O, _Fn, _Cls, _PyM)):
+        if isinstance(v, (_O, _Fn, _Cls, _PyM, _Partial)):
             return True
         return bool(v)
 
@@ -770,6 +781,10 @@ class _Interp:
             return self.effect(f.name, args, kwargs, node)
         if isinstance(f, _T) and f.op == "builtin":
             return self.builtin(f.args[0], args, kwargs, node)
+        if isinstance(f, _Partial):
+            return self.call(f.f, f.args + list(args), {**f.kwargs, **kwargs}, node)
+        if isinstance(f, _T) and (f.path() or "") in ("functools.partial", "partial") and args:
+            return _Partial(args[0], args[1:], kwargs)
         if isinstance(f, _T) and (f.path() or "") in ("itertools.islice", "islice", "itertools.chain", "chain", "itertools.chain.from_iterable", "chain.from_iterable") and not kwargs \
                 and args and not isinstance(args[0], _T):
             import itertools
@@ -865,6 +880,7 @@ class _Interp:
     def effect(self, path, args, kwargs, node, f=None):
         ef = _Eff(path, list(args), dict(kwargs), tuple(self.ctx), node, self.watch() if self.watch else None)
         ef.reads = [o for fr in self.frames[1:] for o in fr]
+        ef.callee = f
         self.effects.append(ef)
         return _T("call", f if f is not None else _T("global", path), tuple(args) + tuple(sorted(kwargs.items(), key=lambda kv: kv[0])))
 
@@ -896,6 +912,11 @@ class _Interp:
             return str(args[0])
         if name == "print":
             return None
+        if name == "dict" and kwargs and not any(isinstance(a, (_T, _Fn, _Cls, _PyM, _O, _Partial)) for a in args):
+            try:
+                return dict(*args, **kwargs)
+            except (TypeError, ValueError) as x:
+                raise _Undecided(f"dict(): {type(x).__name__}")
         fn = _BUILTINS.get(name)
         if fn is not None and not kwargs and not any(isinstance(a, (_T, _Fn, _Cls, _PyM)) for a in args) and not (name in ("sorted", "min", "max", "sum", "int", "float", "abs", "round")
                                                                                                            and any(_opaque(x) for a in args for x in (a if isinstance(a, (list, tuple, set)) else [a]))):
@@ -1205,6 +1226,26 @@ def _explore(make, limit=48):
     return out
 
 
+def _alias_defs(f):
+    """local_defs(f) plus the names that are bound exactly once in f, by an assignment expression (`(fut := self.future) is not None and fut.done()`)"""
+    d = dict(local_defs(f))
+    stores = {}
+    for n in walk_body(f):
+        if isinstance(n, ast.Name) and isinstance(n.ctx, ast.Store):
+            stores[n.id] = stores.get(n.id, 0) + 1
+    for n in walk_body(f):
+        if isinstance(n, ast.NamedExpr) and isinstance(n.target, ast.Name) and stores.get(n.target.id) == 1:
+            d[n.target.id] = n.value
+    return d
+
+
+class _NoWalrus(ast.NodeTransformer):
+    """`(x := E)` reads like E (for matching facts in a test; the binding itself is accounted for by _alias_defs)"""
+
+    def visit_NamedExpr(self, n):
+        return self.visit(n.value)
+
+
 class _SamplerFlow:
     """Abstract interpretation of the Worker actor over two facts, interprocedural over its own methods (handlers -> drive() -> drive()):
          R  the load-generator thread may (still) be running, i.e. may add samples to the sampler it was given (1), none has been started since the step began (0),
@@ -1234,7 +1275,8 @@ class _SamplerFlow:
                     reads.setdefault(x.value.attr, set()).add(x.attr)
         self.sampler = self.prop = self.future = None
         self.submits = []
-        for f in self.wm.values():
+        # (the attributes are identified on copies of the methods in which helper methods are expanded: `self.x = self._launch(executor)` reads like the pool call it returns)
+        for f in [_Expand(drv, W).function(f_) for f_ in self.wm.values()]:
             defs = local_defs(f)
             for n in walk_body(f):
                 if not (isinstance(n, ast.Assign) and len(n.targets) == 1 and is_self_attr(n.targets[0])):
@@ -1259,6 +1301,8 @@ class _SamplerFlow:
             for a in s.args[:1]:
                 a = defs.get(a.id, a) if isinstance(a, ast.Name) else a
                 self.exec_inputs |= {x.attr for x in ast.walk(a) if is_self_attr(x) and x.attr != self.sampler}
+        if not self.exec_inputs:
+            raise AnchorMissing("what the submitted executor of Worker is built from (attributes of the worker among the arguments of its constructor)")
         self.roots = {n: f for n, f in self.wm.items() if n.startswith("receiveMsg_") or n == "receiveUnrecognizedMessage"}
         self.pre_start = set()
         for n, f in self.roots.items():
@@ -1341,7 +1385,7 @@ class _SamplerFlow:
         """the state on the branch of `test` with polarity pol: atomic facts of the (negated) test."""
         from sa.cfg import conjuncts, negate
         r, un, tag = st
-        test = source.inline_node(test, defs)  # a test kept in a single-assignment local reads like the test itself
+        test = _NoWalrus().visit(source.inline_node(test, defs))  # a test kept in a single-assignment local reads like the test itself
         for f in conjuncts(test if pol else negate(test)):
             if isinstance(f, ast.Call) and isinstance(f.func, ast.Attribute) and f.func.attr == "done" and is_self_attr(f.func.value, self.future):
                 r = 2 if r == 1 else r
@@ -1392,7 +1436,7 @@ class _SamplerFlow:
         if k in self._done or k in self._active:
             return set(self.summ.get(k, ()))
         self._active.add(k)
-        g, defs = cfg_of(f), local_defs(f)
+        g, defs = cfg_of(f), _alias_defs(f)
         inn = {g.entry.id: {(entry, frozenset())}}
         work = [g.entry.id]
         exits = set()
@@ -1612,6 +1656,17 @@ def _mentions(v, target, depth=0):
     return False
 
 
+def _contains_term(v, t, depth=0):
+    """the evaluated value contains the term t (structural equality)"""
+    if isinstance(v, _T):
+        return v == t or (depth < 10 and any(_contains_term(a, t, depth + 1) for a in v.args))
+    if isinstance(v, (list, tuple)):
+        return depth < 10 and any(_contains_term(a, t, depth + 1) for a in v)
+    if isinstance(v, dict):
+        return depth < 10 and any(_contains_term(a, t, depth + 1) for a in v.values())
+    return False
+
+
 def _self_attr_terms(v, selfo, depth=0):
     """names of the attributes of `selfo` that were read WITHOUT a representative value inside v (the roles an evaluation with an empty object reveals)"""
     out = []
@@ -1791,7 +1846,7 @@ def _o71(chk, drv):
                     continue
                 obj = qm.put_calls[0]
                 carried = [p for p, m in marks.items() if _mentions(obj, m)]
-                if not (isinstance(obj, _O) and obj.cls is not None and carried):
+                if not ((isinstance(obj, _O) and obj.cls is not None and carried) or (len(ps) == 1 and obj is marks[ps[0]])):  # (or the routine's only argument: the caller hands in the finished sample)
                     bad.append(f"what is enqueued is `{obj!r}`"[:80] + ", not a Sample built from the arguments")
             for qm, marks, (ret, exc, it) in paths(fail_put=True):
                 if exc is None and qm.put_calls:
@@ -2073,7 +2128,11 @@ class _PostProcessed:
         it, self.raw = runs[0]
         raw_all = self.raw
         self.records, self.calc = [], []
+        store = _T("global", "store")
         for e in it.effects:
+            if isinstance(e.callee, _T) and e.callee.path() is None and _contains_term(e.callee, store):
+                # something computed FROM the metrics store is called (a wrapper built by an unmodelled call ...): whether that writes a record is not known
+                raise _Undecided(f"call of `{short(e.node.func, 50) if isinstance(e.node, ast.Call) else e.path}`, a value computed from the metrics store by a call that is not modelled")
             if e.name == "put_value_cluster_level":
                 f = dict(zip(pnames, e.args))
                 f.update(e.kwargs)
@@ -2317,6 +2376,7 @@ def _o76(chk, repo, drv, rc, met, spp_attr, pps):
     cbs = []
     for c in te:
         cl = arg_of(c, 0, clear)
+        cl = jdefs.get(cl.id, cl) if isinstance(cl, ast.Name) else cl
         if cl is None or isinstance(cl, ast.Constant):
             chk.ob("O7.6", "hand-over clears the driver's store", cl is not None and cl.value is True, c, f"{clear}={u(cl) if cl is not None else 'default False'}")
         else:
@@ -2331,8 +2391,11 @@ def _o76(chk, repo, drv, rc, met, spp_attr, pps):
         def carries(a):
             return a is c or (v is not None and _resolves_to(a, v, jdefs))
 
-        cb = [x for x in walk_body(jx) if isinstance(x, ast.Call) and isinstance(x.func, ast.Attribute) and is_self_attr(x.func.value) and x.func.attr in dam
-              and any(carries(a) for a in list(x.args) + [k.value for k in x.keywords])]
+        def actor_cb(x):  # name of the driver-actor method that call x invokes (through local aliases of the actor / of the bound method), or None
+            fn_ = source.inline_node(x.func, jdefs)
+            return fn_.attr if isinstance(fn_, ast.Attribute) and is_self_attr(fn_.value) and fn_.attr in dam else None
+
+        cb = [x for x in walk_body(jx) if isinstance(x, ast.Call) and any(carries(a) for a in list(x.args) + [k.value for k in x.keywords]) and actor_cb(x)]
         if v is not None and sum(1 for n in walk_body(jx) if isinstance(n, ast.Name) and isinstance(n.ctx, ast.Store) and n.id == v) > 1:
             # the local is bound more than once in the routine: only uses dominated by this binding count
             cb = [x for x in cb if gj.dominated_by_nodes(gj.node_of(x), [gj.node_of(c)])]
@@ -2345,10 +2408,10 @@ def _o76(chk, repo, drv, rc, met, spp_attr, pps):
         chk.ob("O7.6", "externalised metrics handed to the driver actor", len(cb) == 1, c, short(cb[0], 60) if cb else "value not passed on")
         if cb:
             chk.ob("O7.6", "hand-over callback reached on every normal path after externalising", gj.must_pass(gj.node_of(c), [gj.node_of(cb[0])], normal_only=True), cb[0], "")
-            b = source.bind_args(cb[0], dam[cb[0].func.attr])
+            b = source.bind_args(cb[0], dam[actor_cb(cb[0])])
             par = [p for p, a in b.items() if carries(a)]
-            if par and (cb[0].func.attr, par[0]) not in cbs:
-                cbs.append((cb[0].func.attr, par[0]))
+            if par and (actor_cb(cb[0]), par[0]) not in cbs:
+                cbs.append((actor_cb(cb[0]), par[0]))
     # the message chain, evaluated: actor callback -> message -> race-control handler -> coordinator -> bulk_add
     BA, CO = rc.cls("BenchmarkActor"), rc.cls("BenchmarkCoordinator")
     bam, com = rc.methods(BA), rc.methods(CO)
@@ -2670,7 +2733,7 @@ def _o79(chk, drv):
     if len(outer) != 1:
         raise AnchorMissing(f"the routine of Worker that sends JoinPointReached: found {sorted(outer) or sorted(cands)}")
     wd, (wx, inlined) = wm[outer[0]], pool[outer[0]]
-    gw, wdefs = cfg_of(wx), local_defs(wx)
+    gw, wdefs = cfg_of(wx), _alias_defs(wx)
     jp = [c for c in walk_body(wx) if is_barrier(c, wdefs)]
     sc = [c for c in walk_body(wx) if isinstance(c, ast.Call) and is_self_attr(c.func) and c.func.attr in ship]
     ok = bool(sc) and all(gw.dominated_by_nodes(gw.node_of(j), [gw.node_of(c) for c in sc]) for j in jp)
@@ -3275,4 +3338,56 @@ VARIANTS += [
      V("", "break", _D, r"                    yield \(\n                        next_scheduled,\n",
        "                    kind = self.task_progress_control.sample_type\n                    yield (\n                        next_scheduled,\n", count=2, regex=True),
      V("", "break", _D, _V_ADD_CALL, "                self.sampler.add(\n                    self.task,\n                    self.client_id,\n                    percent_completed,")],
+]
+
+_V_AT_JP = "    def at_joinpoint(self):\n"
+_V_SUBMIT = "                self.executor_future = self.pool.submit(executor)\n"
+_V_LAUNCH = "    def _launch(self, work):\n        return self.pool.submit(work)\n\n" + _V_AT_JP
+_V_COMMON = """                common = dict(
+                    unit="ms",
+                    task=sample.task.name,
+                    operation=sample.operation_name,
+                    operation_type=sample.operation_type,
+                    sample_type=sample.sample_type,
+                    absolute_time=sample.absolute_time,
+                    relative_time=sample.relative_time,
+                    meta_data=meta_data,
+                )
+"""
+_V_COMMON_DICT = _V_COMMON + """                self.metrics_store.put_value_cluster_level(name="latency", value=convert.seconds_to_ms(sample.latency), **common)
+                self.metrics_store.put_value_cluster_level(name="service_time", value=convert.seconds_to_ms(sample.service_time), **common)
+                self.metrics_store.put_value_cluster_level(name="processing_time", value=convert.seconds_to_ms(sample.processing_time), **common)
+"""
+_V_PARTIAL = _V_COMMON.replace("common = dict(\n", "record = functools.partial(\n                    self.metrics_store.put_value_cluster_level,\n") + """                record(name="latency", value=convert.seconds_to_ms(sample.latency))
+                record(name="service_time", value=convert.seconds_to_ms(sample.service_time))
+                record(name="processing_time", value=convert.seconds_to_ms(sample.processing_time))
+"""
+_V_PUT_TAIL = "                    dependent_timing,\n                )\n            )\n        except queue.Full:\n            self.logger.warning(\"Dropping sample for [%s] due to a full sampling queue.\", task.operation.name)\n"
+_V_PUT_ONLY = ("                    dependent_timing,\n                )\n            )\n\n    def add_sample(self, sample):\n        try:\n            self.q.put_nowait(sample)\n        except queue.Full:\n"
+               "            self.logger.warning(\"Dropping sample for [%s] due to a full sampling queue.\", sample.task.operation.name)\n")
+
+VARIANTS += [
+    [V("R3 the pool call in a helper that returns the future", "keep", _D, _V_SUBMIT, "                self.executor_future = self._launch(executor)\n"), V("", "keep", _D, _V_AT_JP, _V_LAUNCH)],
+    [V("R3 future from a helper, final drain of drive() removed (F23 in that shape)", "break", _D, _V_SUBMIT, "                self.executor_future = self._launch(executor)\n", "O7.9"), V("", "break", _D, _V_AT_JP, _V_LAUNCH),
+     V("", "break", _D, "                self.send_samples()\n                self.sampler = Sampler(", "                self.sampler = Sampler(")],
+    V("R3 the three records share a dict of keyword arguments", "keep", _D, _V_THREE, _V_COMMON_DICT),
+    V("R3 shared keyword arguments take the sample type of the first sample", "break", _D, _V_THREE, _V_COMMON_DICT.replace("sample_type=sample.sample_type", "sample_type=raw_samples[0].sample_type"), "O7.5"),
+    V("R3 the three records through functools.partial", "keep", _D, _V_THREE, _V_PARTIAL),
+    V("R3 partial binds the operation name as the task", "break", _D, _V_THREE, _V_PARTIAL.replace("task=sample.task.name", "task=sample.operation_name"), "O7.5"),
+    V("R3 partial shape, service_time record missing", "break", _D, _V_THREE, _V_PARTIAL.replace("                record(name=\"service_time\", value=convert.seconds_to_ms(sample.service_time))\n", ""), "O7.5"),
+    [V("R3 add builds the sample, a put-only routine enqueues it", "keep", _D, "        try:\n            self.q.put_nowait(\n                Sample(", "        self.add_sample(\n                Sample("), V("", "keep", _D, _V_PUT_TAIL, _V_PUT_ONLY)],
+    [V("R3 put-only routine drops the sample on any error", "break", _D, "        try:\n            self.q.put_nowait(\n                Sample(", "        self.add_sample(\n                Sample(", "O7.1"),
+     V("", "break", _D, _V_PUT_TAIL, _V_PUT_ONLY.replace("except queue.Full:", "except Exception:"))],
+]
+
+_V_DONE_EXC = "            elif self.executor_future is not None and self.executor_future.done():\n                e = self.executor_future.exception(timeout=0)"
+_V_DONE_WALRUS = "            elif (fut := self.executor_future) is not None and fut.done():\n                e = fut.exception(timeout=0)"
+VARIANTS += [
+    V("R3 wake-up handler: the future through an assignment expression", "keep", _D, _V_DONE_EXC, _V_DONE_WALRUS),
+    [V("R3 walrus alias of the future, final drain of drive() removed (F23 in that shape)", "break", _D, _V_DONE_EXC, _V_DONE_WALRUS, "O7.9"),
+     V("", "break", _D, "                self.send_samples()\n                self.sampler = Sampler(", "                self.sampler = Sampler(")],
+    V("R3 hand-over through local aliases of the callback and of the clear flag", "keep", _D, _V_HANDOVER,
+      "        clear_store = True\n        notify = self.driver_actor.on_task_finished\n        m = self.metrics_store.to_externalizable(clear=clear_store)\n        notify(m, waiting_period)"),
+    V("R3 aliased hand-over whose clear flag is False", "break", _D, _V_HANDOVER,
+      "        clear_store = False\n        notify = self.driver_actor.on_task_finished\n        m = self.metrics_store.to_externalizable(clear=clear_store)\n        notify(m, waiting_period)", "O7.6"),
 ]
